@@ -80,10 +80,12 @@ func VerifC15_AlignTraps() {
 const verifTemplate = "acgtcatgcaagtctgac"
 
 // VerifC15_Gapped: sequences long enough for gapped hits. The target is a fixed template; the
-// query is the template with `del` letters removed at `delpos` (so the best alignment needs a
-// gap), and the query positions selected by the bit mask `sym` are symbolic letters.
+// query is the template with `del` letters removed at `delpos` and `ins` letters inserted there
+// (so the best alignment needs a gap and the two hit regions differ in length), and the query
+// positions selected by the bit mask `sym` are symbolic letters.
 func VerifC15_Gapped() {
 	tl, del, delpos, mask := verifParam("tlen"), verifParam("del"), verifParam("delpos"), verifParam("sym")
+	ins := verifParam("ins")
 	minLen, minIdPct, k := verifParam("minlen"), verifParam("minid"), verifParam("k")
 	vecBuffering = 8
 	code := func(c byte) int {
@@ -103,6 +105,11 @@ func VerifC15_Gapped() {
 	}
 	var qc []int
 	for i := 0; i < tl; i++ {
+		if i == delpos {
+			for x := 0; x < ins; x++ {
+				qc = append(qc, (tc[i]+2)%4) // differs from the letters on either side of the cut
+			}
+		}
 		if i >= delpos && i < delpos+del {
 			continue
 		}
